@@ -140,9 +140,15 @@ def decode_case(ctx, case):
         rd = lambda: T().read_with_context(s, _ctx())   # noqa: E731
     else:
         rd = lambda: T.read(s)                          # noqa: E731
+    import warnings
     try:
-        got = run_with_line_budget(rd, LINE_BUDGET) \
-            if case.get('traced') else rd()
+        # the process may run with warnings escalated to errors (python -W
+        # error, pytest filterwarnings=error): decoding well-formed input
+        # returns its value there too
+        with warnings.catch_warnings():
+            warnings.simplefilter('error')
+            got = run_with_line_budget(rd, LINE_BUDGET) \
+                if case.get('traced') else rd()
         out = ('value', got, s.pos)
         exc = None
     except BudgetExceeded:
@@ -191,8 +197,11 @@ def encode_case(ctx, case):
         wr = lambda: T().send_with_context(n, sink, _ctx())     # noqa: E731
     else:
         wr = lambda: T.send(n, sink)                            # noqa: E731
+    import warnings
     try:
-        run_with_line_budget(wr, LINE_BUDGET)
+        with warnings.catch_warnings():
+            warnings.simplefilter('error')
+            run_with_line_budget(wr, LINE_BUDGET)
         raised = None
     except BudgetExceeded:
         ctx.label('encode_budget_exceeded')
